@@ -148,6 +148,8 @@ def drive(tier):
 def run(tier):
     rep = Report("C12", tier)
     rep.add_mc("MC_Address", vlib.run_mc("MC_Address", cfg="MC_Address" if tier == "quick" else "MC_Address_thorough"))
+    import replay_address
+    replay_address.replay(rep, tier)            # specification -> code: TLC's behaviours performed on the implementation
     recs, nsecond, ndiff = vlib.second_pass(drive, tier)
     rep.cov["second_pass_calls"], rep.cov["second_pass_differing"] = nsecond, ndiff
     mm = vlib.validate("Trace_Address", recs)
@@ -170,4 +172,8 @@ def run(tier):
 
 
 def replay(path):
+    d_ = json.load(open(path))
+    if d_["record"].get("op") == "addr.replay":
+        import replay_address
+        return replay_address.replay_record(d_)
     return vlib.replay_file("Trace_Address", path)
